@@ -327,6 +327,9 @@ func c16StartRing(cfg verifh.Cfg) (func(op []string) string, func()) {
 		defer func() { recover() }()
 		rg = NewRing(cfg.Int("n", 1))
 	}()
+	// slices handed out by earlier Takes (and a private copy of each): a later Add must not change them - Take has to
+	// return a fresh slice, never a view of the ring's own buffer
+	var held, heldCopy [][]any
 	return func(op []string) string {
 		switch {
 		case rg == nil:
@@ -339,6 +342,22 @@ func c16StartRing(cfg verifh.Cfg) (func(op []string) string, func()) {
 			ss := make([]string, len(vs))
 			for i, v := range vs {
 				ss[i] = strconv.Itoa(c16ValBack(v))
+			}
+			for i := range held {
+				for j := range held[i] {
+					if held[i][j] != heldCopy[i][j] {
+						ss = append(ss, "HELD-SLICE-CHANGED")
+						held, heldCopy = nil, nil
+						break
+					}
+				}
+				if held == nil {
+					break
+				}
+			}
+			if len(held) < 8 {
+				held = append(held, vs)
+				heldCopy = append(heldCopy, append([]any(nil), vs...))
 			}
 			return strings.Join(ss, " ")
 		}
